@@ -52,22 +52,23 @@ declarations, assignments, `write(int)`, `writeln`, character output, blocks, `i
 assembled output of the real compiler (every instruction, the const and state sections, the
 entry point) and that `Core.exec` agrees with the reference machine.  For that model: -/
 
-/-- **C01 on the core, for every program, word size `w ≥ 2`, stack size and build mode**: if the
-source semantics runs the program to completion with output `tr` (possibly ending in a
-division by zero, which only checked builds define) and the stack holds the frame peak, the
-emitted machine performs exactly `tr` followed by the terminal flag(s) on its committed
-timeline, and ends in the terminal loop. -/
-theorem core_semantic_preservation (cf : Core.Config) (body : Core.S) (hw : 2 ≤ cf.w)
-    (hB : Core.funcLen cf.checked body + stdlibLength < 256 ^ cf.w)
-    (hSE : 5 * cf.w + cf.stackWords * cf.w + cf.w < 256 ^ cf.w)
-    (hwf : Core.wfS [] body = true) (hyl : Core.youLevel body = true)
+/-- **C01 on the core, for every program, every argument vector, word size `w ≥ 2`, stack size and
+build mode**: if the source semantics runs the program (its `int` parameters bound to the
+command-line arguments) to completion with output `tr` (possibly ending in a division by zero,
+which only checked builds define) and the stack holds the frame peak, the emitted machine
+performs exactly `tr` followed by the terminal flag(s) on its committed timeline, and ends in
+the terminal loop. -/
+theorem core_semantic_preservation (cf : Core.Config) (params : List String) (args : List Int) (body : Core.S) (hw : 2 ≤ cf.w)
+    (hB : Core.funcLen cf.checked body + stdlibLength < 256 ^ cf.w) (hSE : Core.F0 cf args < 256 ^ cf.w)
+    (hnd : params.Nodup) (hlen : args.length = params.length)
+    (hwf : Core.wfS params body = true) (hyl : Core.youLevel body = true)
     (fuel : Nat) (env' : Core.Env) (tr : List Ev) (res : Core.Res)
-    (hex : Core.exec (256 ^ cf.w) (8 * cf.w) fuel (fun _ => 0) body = some (env', tr, res))
+    (hex : Core.exec (256 ^ cf.w) (8 * cf.w) fuel (Core.argEnv (256 ^ cf.w) params args) body = some (env', tr, res))
     (hck : res = .div0 → cf.checked = true)
-    (hroom : Core.pkS cf.w cf.w body ≤ (cf.stackWords + 1) * cf.w) :
-    ∃ mEnd, Exec (sphinx (Core.coreProg cf body)) (Core.coreInit cf body) (tr ++ Core.terminalEvs res)
+    (hroom : Core.pkS cf.w (Core.entryOff cf.w params) body ≤ cf.stackWords * cf.w + args.length * cf.w + cf.w) :
+    ∃ mEnd, Exec (sphinx (Core.coreProg cf params body)) (Core.coreInit cf args body) (tr ++ Core.terminalEvs res)
       ⟨tntPc (Core.funcLen cf.checked body), mEnd⟩ :=
-  let ⟨m, h, _⟩ := Core.core_correct cf body hw hB hSE hwf hyl fuel env' tr res hex hck hroom
+  let ⟨m, h, _⟩ := Core.core_correct cf params args body hw hB hSE hnd hlen hwf hyl fuel env' tr res hex hck hroom
   ⟨m, h⟩
 
 /-- expressions: the emitted code computes `evalE` (the building block, for every placement) -/
@@ -86,8 +87,8 @@ theorem core_expression_correct {p : Prog} {ck : Bool} {B : Nat} (lib : Placed p
 /-- non-vacuity: a concrete core program satisfies every hypothesis of the theorem and prints -/
 example :
     let body : Core.S := .decl "x" (.lit 5) (.write (.bin .mul (.var "x") (.lit 3)) .ret)
-    Core.wfS [] body = true ∧ Core.youLevel body = true ∧ Core.pkS 2 2 body ≤ (100 + 1) * 2 ∧
-    (Core.exec (256 ^ 2) 16 10 (fun _ => 0) body).map (fun r => (r.2.1, r.2.2)) = some (outs [49, 53], .returned) := by
+    Core.wfS [] body = true ∧ Core.youLevel body = true ∧ Core.pkS 2 (Core.entryOff 2 []) body ≤ 100 * 2 + 0 * 2 + 2 ∧
+    (Core.exec (256 ^ 2) 16 10 (Core.argEnv (256 ^ 2) [] []) body).map (fun r => (r.2.1, r.2.2)) = some (outs [49, 53], .returned) := by
   refine ⟨by decide, by decide, by decide, ?_⟩
   simp [Core.exec, Core.evalE, Core.upd, Core.aluOf, aluOp, wrapI, decimalW, digits, outs]
 
